@@ -64,6 +64,19 @@ func (n *RaftNode) VApply(index uint64, digests []hashing.Digest) (snaps []*ball
 	return resp.val.([]*balloon.Snapshot), false
 }
 
+// VApplyT is VApply with the term of the entry given (raft logs carry non-decreasing terms; a restart or a
+// leadership change starts a new one).
+func (n *RaftNode) VApplyT(index, term uint64, digests []hashing.Digest) (snaps []*balloon.Snapshot, alreadyApplied bool) {
+	cmd := newCommand(addEventCommandType)
+	cmd.encode(digests)
+	r := n.Apply(&raft.Log{Index: index, Term: term, Type: raft.LogCommand, Data: cmd.data})
+	resp := r.(*fsmResponse)
+	if resp.err != nil {
+		return nil, true
+	}
+	return resp.val.([]*balloon.Snapshot), false
+}
+
 // VApplyErr is VApply with the state machine's error kept apart from "already applied".
 func (n *RaftNode) VApplyErr(index uint64, digests []hashing.Digest) (snaps []*balloon.Snapshot, err error) {
 	cmd := newCommand(addEventCommandType)
